@@ -59,10 +59,10 @@ def _check_pairs(ctx, bm, atoms):
                 cut = PB.HYDROGEN_DISTANCE if nh == 1 else (PB.DISULFIDE_DISTANCE if (a.element == 'S' and b.element == 'S') else PB.DEFAULT_DISTANCE)
                 spec = lt(d2, cut * cut)
             ctx.claim('bond-iff-distance-below-cutoff', spec if bonded else Not(spec), detail='%s-%s bonded=%s' % (a.element, b.element, bonded))
-            if a.element == 'S' and b.element == 'S':
-                ctx.claim('disulfide-both-flagged', (a.cysteine_bridge == bonded) and (b.cysteine_bridge == bonded))
-            else:
-                pass
+    # a sulfur is flagged as bridged exactly when it is bonded to (at least one) other sulfur
+    for a in atoms:
+        if a.element == 'S':
+            ctx.claim('disulfide-both-flagged', bool(a.cysteine_bridge) == any(x.element == 'S' for x in a.bonded_atoms), detail='%s: flag %r, bonded to %r' % (a.name, a.cysteine_bridge, [x.name for x in a.bonded_atoms]))
     for a in atoms:
         if not any(x.element == 'S' and x is not a and a.element == 'S' for x in atoms):
             ctx.claim('bridge-flag-only-for-S-S', a.cysteine_bridge is False)
@@ -104,6 +104,23 @@ def mk_three(origin_lo):
         z3_ = ctx.real('z3', origin_lo, origin_lo + span, hi_strict=True)
         atoms = _mk_atoms(ctx, els, ((x1, y1, z1), (x1 + dx, y1 + dy, z1 + dz), (x3, y3, z3_)))
         order = ctx.choice('order', [(0, 1, 2), (2, 1, 0), (1, 2, 0)])
+        bm.find_bonds_for_atoms_using_boxes([atoms[i] for i in order])
+        _check_pairs(ctx, bm, atoms)
+    return body
+
+
+def mk_collinear(origin_lo, full=True):
+    """three atoms on a line parallel to x (1-D: every query is linear in x): X ... H ... Y with both gaps symbolic, so
+    that a hydrogen can be within bonding distance of two heavy atoms, or two sulfurs of a third atom; all list orders"""
+    def body(ctx):
+        bm = bondmaker()
+        els = ctx.choice('elements', [('O', 'H', 'O'), ('N', 'H', 'O'), ('S', 'S', 'S'), ('C', 'O', 'H'), ('H', 'O', 'H')] if full else [('O', 'H', 'O'), ('S', 'S', 'S')])
+        x1 = ctx.real('x1', origin_lo, origin_lo + 2.51, hi_strict=True)
+        d1 = ctx.real('gap1', 0.5, 2.7)
+        d2 = ctx.real('gap2', 0.5, 2.7)
+        y, z = ctx.choice('yz', [(0.3, 0.4), (-0.2, 2.45)] if full else [(0.3, 0.4)])
+        atoms = _mk_atoms(ctx, els, ((x1, y, z), (x1 + d1, y, z), (x1 + d1 + d2, y, z)))
+        order = ctx.choice('order', [(0, 1, 2), (2, 1, 0), (1, 2, 0), (1, 0, 2)] if full else [(0, 1, 2), (1, 2, 0)])
         bm.find_bonds_for_atoms_using_boxes([atoms[i] for i in order])
         _check_pairs(ctx, bm, atoms)
     return body
@@ -261,6 +278,11 @@ def obligations(tier):
                               bounds='IEEE double x1<=x2 in [-1000,10000], fl((x2-x1)^2) <= max_sq_distance; constants read from propka.bonds',
                               claim_doc='cell indices of two bondable atoms differ by at most 1 per axis in double arithmetic',
                               wall_s=700, native=None, kind='smt-lemma'))
+    for lo in ((0.0, -2.51) if tier == 'quick' else (0.0, -2.51, 997.49, -5.02)):
+        obs.append(Obligation('O1-three-atoms-on-a-line@%g' % lo, mk_collinear(lo, tier != 'quick'), code=code + ['propka/bonds.py:BondMaker.make_bond'],
+                              bounds='3 atoms on a line parallel to x (%s), first in [%g,%g), gaps in [0.5, 2.7] each, %s list orders' % ('O-H-O and S-S-S' if tier == 'quick' else '5 element triples incl. X-H-Y', lo, lo + 2.51, '2' if tier == 'quick' else '4'),
+                              claim_doc='as O1: every pair bonded iff the distance criterion holds (a hydrogen within 1.5 A of two heavy atoms is bonded to both)', max_paths=20000, wall_s=170 if tier == 'quick' else 900,
+                              split_input=None if tier == 'quick' else ('elements', 5)))
     obs.append(Obligation('O3-all-pairs-loops', o_all_pairs, code=code,
                           bounds='atom 1 at the origin, atom 2 in [-3,3]^3, 4 element pairs, both pair-loop functions', max_paths=6000))
     obs.append(Obligation('O4-disulfide-consequence', o_disulfide_consequence,
